@@ -14,6 +14,7 @@ package fasthttp
 import (
 	"bufio"
 	"bytes"
+	"compress/gzip"
 	"encoding/json"
 	"errors"
 	"fmt"
@@ -21,6 +22,8 @@ import (
 	"net"
 	"net/http"
 	"net/http/httputil"
+	"os"
+	"os/exec"
 	"strings"
 	"sync"
 	"sync/atomic"
@@ -571,7 +574,7 @@ func (r *c34Run) liveServer(v *c34Vec, unit, limit, salt int) {
 	cli, srvSide := pc.Conn1(), pc.Conn2()
 	fc := &c34FaultConn{Conn: srvSide, limit: limit}
 	done := make(chan struct{})
-	go func() { s.ServeConn(fc); close(done) }() //nolint:errcheck
+	go func() { s.ServeConn(fc); close(done) }()      //nolint:errcheck
 	cli.SetDeadline(time.Now().Add(60 * time.Second)) //nolint:errcheck
 	if _, err := cli.Write([]byte("GET / HTTP/1.1\r\nHost: h\r\n\r\n")); err != nil {
 		vfInfra("c34 live server: client write: " + err.Error())
@@ -913,8 +916,8 @@ func (r *c34Run) chunkedReaders(v *c34Vec, unit, salt int) {
 		pc := fasthttputil.NewPipeConns()
 		cli := pc.Conn1()
 		done := make(chan struct{})
-		go func() { s.ServeConn(pc.Conn2()); close(done) }() //nolint:errcheck
-		cli.SetDeadline(time.Now().Add(60 * time.Second))      //nolint:errcheck
+		go func() { s.ServeConn(pc.Conn2()); close(done) }()           //nolint:errcheck
+		cli.SetDeadline(time.Now().Add(60 * time.Second))              //nolint:errcheck
 		go cli.Write(append(append([]byte(nil), reqWire...), tail...)) //nolint:errcheck
 		br := bufio.NewReader(cli)
 		r1, err1 := http.ReadResponse(br, nil)
@@ -940,6 +943,150 @@ func (r *c34Run) chunkedReaders(v *c34Vec, unit, salt int) {
 	}
 }
 
+// ---------------------------------------------------------------- (g) CompressHandler in front of a stream
+
+type c34CompRes struct {
+	Closes   int    `json:"closes"`
+	Cwe      int    `json:"cwe"`
+	Failed   bool   `json:"failed"`
+	Wire     []byte `json:"wire"`
+	Infra    string `json:"infra,omitempty"`
+	Finished bool   `json:"finished"`
+}
+
+// c34CompressedOnce serves one request whose handler streams the scenario's body behind
+// CompressHandler and returns what the peer got and the stream's counters after ServeConn ended.
+func c34CompressedOnce(v *c34Vec, unit, salt int) (res c34CompRes) {
+	core, stream := c34NewStream(v, unit, salt)
+	declared := c34Declared(v, unit)
+	s := &Server{
+		Handler: CompressHandler(func(ctx *RequestCtx) { ctx.SetBodyStream(stream, declared) }),
+		Logger:  c34NullLogger{},
+	}
+	pc := fasthttputil.NewPipeConns()
+	cli := pc.Conn1()
+	done := make(chan struct{})
+	go func() { s.ServeConn(pc.Conn2()); close(done) }() //nolint:errcheck
+	cli.SetDeadline(time.Now().Add(60 * time.Second))    //nolint:errcheck
+	if _, err := cli.Write([]byte("GET / HTTP/1.1\r\nHost: h\r\nAccept-Encoding: gzip\r\n\r\n")); err != nil {
+		res.Infra = "client write: " + err.Error()
+		return res
+	}
+	buf := make([]byte, 8192)
+	for {
+		n, err := cli.Read(buf)
+		res.Wire = append(res.Wire, buf[:n]...)
+		if err != nil {
+			res.Failed = true
+			break
+		}
+		if _, complete, _, perr := c34PeerBody("resp", res.Wire); perr == nil && complete {
+			break
+		}
+	}
+	cli.Close()
+	select {
+	case <-done:
+	case <-time.After(60 * time.Second):
+		res.Infra = "ServeConn did not return"
+		return res
+	}
+	// the compressing goroutine closes the original stream; give it a bounded time
+	for i := 0; i < 6000; i++ {
+		if c, _, _ := core.counts(); c >= v.Expect.CloseFinal {
+			break
+		}
+		time.Sleep(10 * time.Millisecond)
+	}
+	res.Closes, res.Cwe, _ = core.counts()
+	res.Finished = true
+	return res
+}
+
+type c34ChildJob struct {
+	V    *c34Vec `json:"v"`
+	Unit int     `json:"unit"`
+	Salt int     `json:"salt"`
+}
+
+// TestVerifC34Child runs one compressed scenario in a process of its own (a panic raised in
+// the compression goroutine cannot be recovered by the caller and would take the harness down).
+func TestVerifC34Child(t *testing.T) {
+	js := os.Getenv("VERIF_C34_CHILD")
+	if js == "" {
+		t.Skip("child of TestVerifC34BodyStream only")
+	}
+	var job c34ChildJob
+	if err := json.Unmarshal([]byte(js), &job); err != nil {
+		t.Fatalf("bad job: %v", err)
+	}
+	res := c34CompressedOnce(job.V, job.Unit, job.Salt)
+	b, _ := json.Marshal(res)
+	fmt.Printf("\nC34CHILD %s\n", b)
+}
+
+func (r *c34Run) compressed(v *c34Vec, unit, salt int) {
+	const bind = "CompressHandler"
+	var res c34CompRes
+	if v.Sc.PanicAt != 0 {
+		js, _ := json.Marshal(c34ChildJob{v, unit, salt})
+		cmd := exec.Command(os.Args[0], "-test.run=^TestVerifC34Child$", "-test.timeout=120s")
+		cmd.Env = append(os.Environ(), "VERIF_C34_CHILD="+string(js), "VERIF_OUT=")
+		out, err := cmd.CombinedOutput()
+		r.count(v, bind)
+		i := bytes.Index(out, []byte("C34CHILD "))
+		if i < 0 {
+			if bytes.Contains(out, []byte("panic: c34: scripted panic in Read")) {
+				r.viol(v, bind, "process-crash", unit, -1, "a panic raised by the body stream's Read behind CompressHandler terminated the process (%v): %s", err, c34Clip(out))
+			} else {
+				vfInfra(fmt.Sprintf("c34 child failed: %v: %s", err, c34Clip(out)))
+			}
+			return
+		}
+		line := out[i+len("C34CHILD "):]
+		if j := bytes.IndexByte(line, '\n'); j >= 0 {
+			line = line[:j]
+		}
+		if err := json.Unmarshal(line, &res); err != nil {
+			vfInfra("c34 child output: " + err.Error())
+			return
+		}
+	} else {
+		res = c34CompressedOnce(v, unit, salt)
+		r.count(v, bind)
+	}
+	if res.Infra != "" || !res.Finished {
+		vfInfra("c34 compressed: " + res.Infra)
+		return
+	}
+	if res.Closes != v.Expect.CloseFinal {
+		r.viol(v, bind, "close-count-at-end", unit, -1, "Close called %d time(s) on the original stream, specification %d", res.Closes, v.Expect.CloseFinal)
+	}
+	if v.Sc.PanicAt != 0 {
+		return
+	}
+	content := c34Bytes(v.Sc.L*unit, salt)
+	br := bufio.NewReader(bytes.NewReader(res.Wire))
+	resp, err := http.ReadResponse(br, &http.Request{Method: "GET"})
+	if err != nil {
+		r.viol(v, bind, "peer-cannot-decode", unit, -1, "net/http: %v; wire=%s", err, c34Clip(res.Wire))
+		return
+	}
+	body, err := io.ReadAll(resp.Body)
+	if err != nil || resp.Header.Get("Content-Encoding") != "gzip" {
+		r.viol(v, bind, "peer-cannot-decode", unit, -1, "body err %v, Content-Encoding %q", err, resp.Header.Get("Content-Encoding"))
+		return
+	}
+	var plain []byte
+	zr, err := gzip.NewReader(bytes.NewReader(body))
+	if err == nil {
+		plain, err = io.ReadAll(zr)
+	}
+	if err != nil || !bytes.Equal(plain, content) {
+		r.viol(v, bind, "peer-bytes-differ", unit, -1, "gunzip err %v, peer decoded %s, stream produced %s", err, c34Clip(plain), c34Clip(content))
+	}
+}
+
 // ---------------------------------------------------------------- driver
 
 func TestVerifC34BodyStream(t *testing.T) {
@@ -955,6 +1102,7 @@ func TestVerifC34BodyStream(t *testing.T) {
 	run := &c34Run{t: t, perBind: map[string]int{}}
 	nw := vfEnvInt("VERIF_C34_WORKERS", 4)
 	liveEvery := vfEnvInt("VERIF_C34_LIVE_EVERY", 3)
+	childEvery := vfEnvInt("VERIF_C34_CHILD_EVERY", 4)
 	var wg sync.WaitGroup
 	for w := 0; w < nw; w++ {
 		wg.Add(1)
@@ -995,6 +1143,11 @@ func TestVerifC34BodyStream(t *testing.T) {
 						} else {
 							run.liveClient(v, unit, off, salt)
 						}
+					}
+				}
+				if v.Sc.Owner == "resp" && v.Sc.Fault == "none" && v.Sc.Post == "release" && (v.Sc.Decl == "eq" || v.Sc.Decl == "unk") {
+					if v.Sc.PanicAt == 0 || rng.Intn(childEvery) == 0 {
+						run.compressed(v, unit, salt)
 					}
 				}
 				if v.Sc.Fault == "none" && v.Sc.PanicAt == 0 && v.Sc.Decl == "unk" && v.Sc.Post == "release" && v.Sc.Closer == "none" {
